@@ -645,6 +645,43 @@ func (g *gen) groupSplit() {
 		body := sb.String()[:4080+g.r.Intn(14)]
 		g.emit("split", encRunes([]rune(body+strings.Repeat("b", g.r.Intn(6))+" \u0301x \u200d\U0001F467 \u0903y\n\u0301z "+g.word(2, 5))))
 	}
+	// LONG inputs (round 7: block-wise / line-wise / "classified" paths of Split above 4096 or 8192 runes):
+	// CR LF documents of mixed content, so that some CR LF pair, flag, emoji ZWJ sequence or syllable stands at
+	// or across every multiple of 1024; and one long text that contains, after 8300 letters, the class probes of
+	// every code point at which a class table has an edge (a class computed differently on the long path)
+	for _, target := range []int{4200, 9000, 13000} {
+		pieces := []string{"ab", "\U0001F1E9\U0001F1EA", "\U0001F468\u200d\U0001F469\u200d\U0001F467", "\u1100\u1161\u11a8",
+			"e\u0301", "\u00a9\u200d\u00ae", "\U0001F600\u200d\u00a9", "\u0600x", "\uac01\u11a8", "z"}
+		var rs []rune
+		for len(rs) < target {
+			ll := 3 + g.r.Intn(20)
+			for k := 0; k < ll; k++ {
+				rs = append(rs, []rune(pieces[g.r.Intn(len(pieces))])...)
+			}
+			rs = append(rs, '\r', '\n')
+		}
+		g.emit("split", encRunes(rs))
+	}
+	{
+		rs := []rune(strings.Repeat("a", 8300))
+		edges := classEdges()
+		step := 1
+		if g.tier != "thorough" {
+			step = 1 + len(edges)/600
+		}
+		for i := g.r.Intn(step); i < len(edges); i += step {
+			c := rune(edges[i])
+			if c < 0 || c > 0x10FFFF || (c >= 0xD800 && c <= 0xDFFF) {
+				continue
+			}
+			for _, pr := range [][]rune{{'a', c}, {c, 'a'}, {c, 0x308}, {0x1F600, 0x200d, c}, {0x1F600, c, 0x200d, 0x1F600},
+				{0x1F1E9, c}, {0x1100, c}, {c, 0x1161}, {c, 0x11a8}, {0x0d, c}, {c, 0x0a}, {0x1161, c}} {
+				rs = append(rs, pr...)
+				rs = append(rs, ' ', 'x', ' ')
+			}
+		}
+		g.emit("split", encRunes(rs))
+	}
 	// arbitrary rune values (also ill-formed / out of range)
 	for i := 0; i < n/10; i++ {
 		l := 1 + g.r.Intn(6)
@@ -1852,6 +1889,19 @@ func (g *gen) groupHist(n int, steps int, withReverse bool) {
 			st = append(st, fmt.Sprintf("sub,%d,%d,%d", len(st)-1, 1+g.r.Intn(3), 1000000))
 			st = append(st, fmt.Sprintf("len,%d", len(st)-1))
 			st = append(st, fmt.Sprintf("gi,%d", len(st)-2))
+		}
+		if g.chance(0.012) {
+			// a value of more than 4096 (sometimes 8192) runes with CR LF line ends, measured, cut and joined
+			// (seeded change C19m: Split line by line above 4096 runes separates CR from LF)
+			var rs []rune
+			for len(rs) < 4100+4200*g.r.Intn(2) {
+				rs = append(rs, []rune(strings.Repeat("ab", 4+g.r.Intn(8)))...)
+				rs = append(rs, '\r', '\n')
+			}
+			st = append(st, "new,"+encRunes(rs))
+			b := len(st) - 1
+			st = append(st, fmt.Sprintf("len,%d", b), fmt.Sprintf("sub,%d,%d,%d", b, 3+g.r.Intn(20), 30+g.r.Intn(40)))
+			st = append(st, fmt.Sprintf("gi,%d", len(st)-1), fmt.Sprintf("len,%d", len(st)-2), fmt.Sprintf("add,%d,%d", len(st)-3, 0))
 		}
 		if g.chance(0.1) {
 			// SetCharAt with a replacement of the SAME rune count as the cluster it replaces, differing in one
